@@ -117,6 +117,19 @@ class Algebra:
         if not f:
             raise AlgebraError("norm of a vector that is not (positive monomial) x (coordinate polynomial vector)")
         pm, q = f
+        # rational content: |g * w| = g |w| for a positive rational g, so 2 * v, v / 2 and v share the atom |v|
+        g = None
+        for comp in q.c:
+            for m in sorted(comp):
+                g = abs(comp[m])
+                break
+            if g is not None:
+                break
+        if g is not None and g != 1:
+            q = Vec({m: c / g for m, c in comp.items()} for comp in q.c)
+            pm_poly = {pm: Fraction(g)}
+        else:
+            pm_poly = {pm: Fraction(1)}
         key, nkey = self.canon(q), self.canon(Vec(neg(c) for c in q.c))
         k = min(key, nkey)
         if k not in self.ATOMS:
@@ -124,7 +137,7 @@ class Algebra:
             self.ATOMS[k] = name
             self.POS.add(name)
             self.NORMSQ[name] = self.dot(q, q)
-        return mul({pm: Fraction(1)}, var(self.ATOMS[k]))
+        return mul(pm_poly, var(self.ATOMS[k]))
 
     def join_pos_scaled(self, a: Vec, b: Vec) -> Vec:
         fa, fb = self.factor_vec(a), self.factor_vec(b)
